@@ -10,6 +10,10 @@ CLAIMED = {
              text='All operation sequences over small argument domains up to depth 6 (quick) / 8 (thorough) on every battery, merged on contents; return value / exception class / contents / read accessors compared with int, list, dict, set, bounded deque, bounded heap after every operation.',
              note='argument domains {0,1,2}/{a,b}; ReplSet.pop compared as "some member"; full() only for maxsize>0; hash order across differently seeded processes is out of reach',
              ref='4/C15'),
+ 'C08': dict(engine='E4', technique='explicit-state BFS over journal operation sequences on the real FileJournal over a simulated file system, kill injected before every OS-visible mutation of every operation in every state',
+             text='All sequences of add(boundary-dense sizes incl. 2.5x file size)/deleteEntriesFrom/deleteEntriesTo/clear/setRaftCommitIndex/timer/reopen up to depth 4 with crash points + depth 5 without (quick), 6/7 (thorough), merged on contents+file size+meta; equality with a list in every state and after a clean reopen; crash oracle (contiguous range keeping what the operation keeps, append all-or-nothing, commit index one that was set) at every kill point.',
+             note='process-kill crash model (no torn stores, no reordering, Python-level buffers lost); simulated open/mmap/rename validated byte-for-byte against real files by a pristine copy of journal.py on all sequences up to depth 2 (quick) / 3 (thorough)',
+             ref='4/C08'),
 }
 NOT_YET = {}
 for i in ids:
@@ -33,7 +37,7 @@ m = dict(version=1,
                     baseline_off_cmd='cd /repo && /venv/bin/python -m pytest -ra -q -p no:cacheprovider --timeout=900 --continue-on-collection-errors',
                     source_commits=[], add_only=True),
          engines=[dict(name='E1', path='mc/cluster.py', serves_properties=[], kind_free_text='explicit-state BFS over real SyncObj nodes with simulated transport/clock/files'),
-                  dict(name='E4', path='mc/core.py', serves_properties=['C15'], kind_free_text='explicit-state BFS of one real object against a reference model')],
+                  dict(name='E4', path='mc/core.py', serves_properties=['C08', 'C15'], kind_free_text='explicit-state BFS of one real object against a reference model')],
          checks=checks,
          notes='All checks run the real code of /repo working tree (sys.path), nothing is built. See DESIGN.md.',
          not_applicable=[dict(property_id=i, reason=r) for i, r in sorted(NOT_YET.items())])
